@@ -55,6 +55,15 @@ Filter(p, xs, i) == IF i > Len(xs) THEN <<>>
                     ELSE (IF ApplyPred(p, xs[i]) THEN <<xs[i]>> ELSE <<>>) \o Filter(p, xs, i + 1)
 MinOf(xs) == CHOOSE x \in {xs[j].v : j \in 1..Len(xs)} : \A j \in 1..Len(xs) : x <= xs[j].v
 MaxOf(xs) == CHOOSE x \in {xs[j].v : j \in 1..Len(xs)} : \A j \in 1..Len(xs) : x >= xs[j].v
+\* a run of take / skip operations applied one after the other (slices of slices of slices)
+RECURSIVE SliceRun(_, _, _), SliceTerm(_, _, _)
+SliceRun(xs, ops, i) ==
+    IF i > Len(ops) THEN xs
+    ELSE LET k == ops[i][2]  n == Len(xs)  c == IF k > n THEN n ELSE k
+         IN SliceRun(IF ops[i][1] = "take" THEN SubSeq(xs, 1, c) ELSE SubSeq(xs, c + 1, n), ops, i + 1)
+SliceTerm(t, ops, i) ==
+    IF i > Len(ops) THEN t
+    ELSE SliceTerm([k |-> "call", f |-> ops[i][1], args |-> <<t, [k |-> "lit", ty |-> "int", v |-> ops[i][2]]>>, sty |-> "method"], ops, i + 1)
 Zip2(xs, ys) == [i \in 1..(IF Len(xs) < Len(ys) THEN Len(xs) ELSE Len(ys)) |-> StructV(<<xs[i], ys[i]>>)]
 
 VARIABLES pool, step, r
@@ -100,11 +109,11 @@ Op(rr) ==
     IN IF S = {} THEN Source(rr)
     ELSE
     LET i == Ch(S, rr[1])  e == pool[i]  xs == e.v  n == Len(xs)
-        o == Ch(1..40, rr[2])
+        o == Ch(1..43, rr[2])
     IN
     IF e.inf THEN
         \* operations that are meaningful on an infinite sequence
-        LET q == Ch(1..8, rr[2])
+        LET q == Ch(1..10, rr[2])
         IN IF q = 1 THEN LET k == Ch(0..6, rr[3]) IN NewSeq(SubSeq(xs, 1, k), FALSE, e.ety, Call("take", <<V(i), Lit(k)>>))
            ELSE IF q = 2 /\ n > 16 THEN LET k == Ch(0..4, rr[3]) IN NewSeq(SubSeq(xs, k + 1, n), TRUE, e.ety, Call("skip", <<V(i), Lit(k)>>))
            ELSE IF q = 3 /\ e.ety = "int" THEN LET f == Fns[Ch(1..3, rr[3])]
@@ -112,6 +121,10 @@ Op(rr) ==
            ELSE IF q = 4 THEN LET k == Ch(0..5, rr[3]) IN NewVal(IF e.ety = "int" THEN "int" ELSE "pair", xs[k + 1], Call("get", <<V(i), Lit(k)>>))
            ELSE IF q = 5 THEN NewErr("int", "int", Call("len", <<V(i)>>))
            ELSE IF q = 8 THEN NewVal("bool", BoolV(TRUE), Call("is_infinite", <<V(i)>>))
+           ELSE IF q \in {9, 10} /\ n > 30
+                  THEN LET ops == [j \in 1..3 |-> <<IF (rr[4] \div (2 ^ j)) % 2 = 0 THEN "skip" ELSE "take", (rr[4 + j] % 6)>>]
+                           takes == \E j \in 1..3 : ops[j][1] = "take"
+                       IN NewSeq(SliceRun(xs, ops, 1), ~takes, e.ety, SliceTerm(V(i), ops, 1))
            ELSE IF q = 6 /\ SeqEntries(e.ety, FALSE) # {}
                   THEN LET j == Ch(SeqEntries(e.ety, FALSE), rr[3])
                        IN IF Len(pool[j].v) + n >= 12
@@ -212,6 +225,11 @@ Op(rr) ==
                    LET RECSUM[j \in 1..n] == IF j = 1 THEN xs[1].v ELSE RECSUM[j - 1] + xs[j].v
                    IN NewSeq([j \in 1..n |-> IntV(RECSUM[j])], FALSE, "int",
                              Call("to_array", <<Call("aggregate", <<V(i), [k |-> "raw", src |-> "(a: int, b: int) -> {a + b}"]>>)>>))
+      \* three or four take / skip operations in a row on one sequence (any representation underneath)
+      [] o \in {41, 42, 43} ->
+                   LET m == 3 + (rr[3] % 2)
+                       ops == [j \in 1..m |-> <<IF (rr[4] \div (2 ^ j)) % 2 = 0 THEN "skip" ELSE "take", (rr[4 + j] % (n + 2))>>]
+                   IN NewSeq(SliceRun(xs, ops, 1), FALSE, e.ety, SliceTerm(V(i), ops, 1))
       [] OTHER -> Source(rr)
 
 Init == pool = <<>> /\ step = 0 /\ r = <<>>
